@@ -330,7 +330,7 @@ def run_case(case, g, tier, res):
             ltxt = SymStr.of("[", lt, *( [ltid] if ltid is not None else []), "]")
             ru = "[$]CC[$]" if False else None
             # repeat unit compatible with whatever the terminal is: offer all three kinds
-            text = SymStr.of("{", ltxt, "[<]CC[>], [$]CC[$]", *( [] ), "[]}|gauss(50,5)|")
+            text = SymStr.of("{", ltxt, "[<]CC[>], [$]CC[$]; [$][H], [<]O, [>]N[]}|gauss(50,5)|")
             # ids on the terminal make the units incompatible, which is fine: the prefix check comes first
             st = g.Stochastic(text, 0)
             rng = SymRng()
